@@ -5,6 +5,7 @@ from engine import cfg
 from engine.asyncs import awaits, await_of_call, base_local
 from .common import (Table, client_dispatch_poll, reachable_local_fns, norm_path, guarded_by_bool, guarded_by_variant, sends_cancel_id, find_calls, message_send_sites)
 
+EXTRA_CONFIGS = ('default', 'tokio1', 'serde1', 'serde-transport')   # feature configurations re-analysed in the thorough tier
 META = {
     'level': 'other',
     'technique': 'static dominator / control-dependence / provenance rules over MIR of Channel::call, the guard\'s Drop, and the dispatch write path',
